@@ -163,6 +163,20 @@ func runC19(ctx *report.Ctx) {
 		ctx.HarnessError("C19: harness script does not load: %v %s", err, pan)
 		return
 	}
+	// a host that tried to register something unusable under the names of the built-ins (refused, as it must be): the
+	// built-ins are what they were
+	refused := 0
+	for _, name := range []string{"floor", "ceil", "round", "round_places", "inc", "dec", "decimal", "integer", "int", "string", "number", "bool"} {
+		var rerr error
+		if p := guard(func() { rerr = r.DR.ConvertAndAddFunction(name, 42) }); p != nil {
+			ctx.Violation(report.Violation{Clause: "builtin-failed", Witness: "registration of a non-function under " + name, Detail: fmt.Sprintf("ConvertAndAddFunction panicked: %v", p), Part: "N"})
+			return
+		}
+		if rerr != nil {
+			refused++
+		}
+	}
+	ctx.Bound("refused_registrations_under_built_in_names_before_the_run", refused)
 	var captured []*variable.Value
 	r.DR.AddFunction("cap", func(args []*variable.Value) (*variable.Value, error) {
 		captured = args
